@@ -726,9 +726,11 @@ def find_target(tree: Tree, follow_names: bool = True):
             # the innermost enclosing let that binds it; anything else (formals, with, inherit) is not followed
             name = tree.s(node)
             target = None
+            visible = len(lets)
             for hop in range(4):
                 found = None
-                for ln in reversed(lets):
+                for li in range(visible - 1, -1, -1):
+                    ln = lets[li]
                     for b in _binding_items(ln):
                         if b.type != "binding":
                             continue
@@ -738,6 +740,7 @@ def find_target(tree: Tree, follow_names: bool = True):
                             found = next((k for k in b.children if k.type not in ("attrpath", "=", ";", "comment")), None)
                             break
                     if found is not None:
+                        visible = li + 1  # the value is read in the scope of its own layer
                         break
                 if found is None:
                     break
